@@ -113,6 +113,8 @@ func main() {
 	burst(o, r, "burst-single", 1, *burstK*6)
 	burst(o, r, "burst-concurrent", *burstG, *burstK)
 	firstPublishers(o, r, *burstK)
+	generateFromStates(o, r, 20)
+	publishPaths(o, r)
 }
 
 // two FIRST publishers of a brand-new topic: the first is parked in GetTopic after its
